@@ -32,11 +32,11 @@ theorem filter_fail_eq (rs : List Res) :
 theorem ready_of_fail (s : St) (ho : overall (answers s.ready) = fail) :
     ready false s = ⟨503, "starting", failingChecks (sortRes (answers s.ready))⟩ := by
   simp only [answers] at ho
-  simp [ready, evaluate, ho, answers]
+  simp [ready, evaluate, ho, answers, Influx.Generated.CheckConsts.statusStarting]
 theorem ready_of_not_fail (s : St) (ho : overall (answers s.ready) ≠ fail) :
     ready false s = ⟨200, "ready", []⟩ := by
   simp only [answers] at ho
-  simp [ready, evaluate, ho]
+  simp [ready, evaluate, ho, Influx.Generated.CheckConsts.statusReady]
 theorem health_of_fail (s : St) (ho : overall (answers s.health) = fail) :
     health false s = ⟨503, fail, firstFailureMessage (sortRes (answers s.health)), sortRes (answers s.health)⟩ := by
   simp only [answers] at ho
@@ -44,7 +44,7 @@ theorem health_of_fail (s : St) (ho : overall (answers s.health) = fail) :
 theorem health_of_not_fail (s : St) (ho : overall (answers s.health) ≠ fail) :
     health false s = ⟨200, overall (answers s.health), "healthy", sortRes (answers s.health)⟩ := by
   simp only [answers] at ho
-  simp [health, evaluate, ho, answers]
+  simp [health, evaluate, ho, answers, Influx.Generated.CheckConsts.messageHealthy]
 
 theorem overall_answers_fail (cs : List Cell) (h : ∃ c ∈ cs, c.res.status = fail) : overall (answers cs) = fail := by
   rw [overall_fail_iff]
@@ -283,6 +283,25 @@ theorem C33_conc_instant (s : CSt) (rid : Nat) (as : List Act)
   refine replay_sound rid as (s.step (.reqSnapshot rid)) ⟨rid, List.range s.gates.length, []⟩ ?_ hns resp h
   simp only [pend, CSt.step] at hfresh ⊢
   simp [hfresh]
+
+/-- **C33 (concurrent), interval semantics, explicit.**  Whatever the interleaving: if
+    the request answers `resp`, then its `reqRespond` sits at some position `c` after the
+    snapshot and there are strictly increasing instants `ts`, all between the snapshot
+    and `c`, one per snapshotted gate in order, such that `resp` is the aggregate of the
+    values the gates registered at the snapshot instant had *at those instants* — each
+    gate's reported status is its value at an instant inside the request interval, and the
+    set of gates is the one at the snapshot instant. -/
+theorem C33_conc_interval (s : CSt) (rid : Nat) (as : List Act)
+    (hfresh : pend s rid = []) (hns : ∀ a ∈ as, a ≠ .reqSnapshot rid) (resp : ReadyResp)
+    (h : replay rid s.gates (List.range s.gates.length) [] as = some resp) :
+    (rid, resp) ∈ (s.run (.reqSnapshot rid :: as)).done ∧
+    ∃ (ts : List Nat) (c : Nat), as[c]? = some (.reqRespond rid) ∧
+      ts.length ≤ s.gates.length ∧ ts.Pairwise (· < ·) ∧
+      (∀ t ∈ ts, t < c ∧ as[t]? = some (.reqRead rid)) ∧
+      resp = respond (readAt s.gates as ts (List.range s.gates.length)) := by
+  refine ⟨C33_conc_instant s rid as hfresh hns resp h, ?_⟩
+  obtain ⟨ts, c, h1, h2, h3, h4, h5⟩ := replay_instants rid as _ _ _ _ h
+  exact ⟨ts, c, h1, by simpa using h2, h3, h4, by simpa using h5⟩
 
 /-- **C33 (concurrent), no overlapping signal ⇒ exact aggregate.**  If no registration
     or signal happens between a request's snapshot and its response (other requests may
